@@ -86,6 +86,8 @@ pub enum Stmt {
         pad: usize,
     },
     KillSelf(i32),
+    /// `mkdir -p "$(dirname "$1")"`: the script creates the target's directory itself
+    MkDirs,
 }
 
 #[derive(Clone, Debug, Serialize, Deserialize, PartialEq, Eq)]
@@ -135,6 +137,7 @@ impl Rule {
                 ),
                 Stmt::Out { mode, pad } => format!("out\t{}\t{}", mode.name(), pad),
                 Stmt::KillSelf(sig) => format!("killself\t{}", sig),
+                Stmt::MkDirs => "mkdirs".to_string(),
             };
             s.push_str(&line);
             s.push('\n');
@@ -193,6 +196,7 @@ impl Rule {
                     pad: w[2].parse().unwrap_or(0),
                 },
                 "killself" if w.len() >= 2 => Stmt::KillSelf(w[1].parse().unwrap_or(9)),
+                "mkdirs" => Stmt::MkDirs,
                 _ => continue,
             };
             stmts.push(st);
